@@ -75,7 +75,8 @@ def install_mtscomp(it, fs_):
         if it_.ctx.branch(z3.Bool(fresh_name("compress_fails"))):
             fs_.exists[out.key] = SV(z3.Bool(fresh_name("partial_out")))
             fs_.content[out.key] = z3.Const(fresh_name("garbage"), Bytes)
-            fs_.exists[outmeta.key] = SV(z3.Bool(fresh_name("partial_meta")))
+            # mtscomp opens the header for writing only after the last chunk: a failure leaves it untouched, or (re)written - it never removes one
+            fs_.exists[outmeta.key] = SV(z3.Or(ex_term(fs_, outmeta), z3.Bool(fresh_name("partial_meta"))))
             raise PyRaise(RuntimeError("mtscomp.compress failed part-way"))
         fs_.exists[out.key] = True
         fs_.content[out.key] = Cf(fs_.content[src.key])
@@ -241,6 +242,7 @@ def h_companion(H):
 
 # ----------------------------------------------------------------------------- compress / decompress
 @harness(PROPERTY, "compress_file", functions=["spikeglx:Reader.compress_file", "spikeglx:Reader.is_mtscomp", "spikeglx:Reader.fs", "spikeglx:Reader.nc"],
+         replay=lambda vals, oid: (lambda b: {"failed": bool(b), "cases": b[:3]})(native_failed_recompression() if ".fail." in oid else []),
          clause="in-place compression: final name appears only complete, source removed only after its replacement is complete, untouched on failure")
 def h_compress(H):
     for keep in (True, False):
@@ -276,6 +278,9 @@ def h_compress(H):
                 it.ctx.oblige(f"compress.fail.final_name_unchanged.{tag}", z3.And(ex_term(fs_, cb) == (term(ex0[cb.key])), fs_.content[cb.key] == ct0[cb.key]), "post",
                               "when compression fails part-way no file carrying the final name exists unless it was there (complete) before")
                 it.ctx.oblige(f"compress.fail.source_untouched.{tag}", z3.And(ex_term(fs_, bn), fs_.content[bn.key] == b0, z3.BoolVal(sr.file_bin == bn)), "post")
+                ch = paths[".ch"]
+                it.ctx.oblige(f"compress.fail.published_pair_keeps_its_header.{tag}", z3.Implies(term(ex0[ch.key]) if not isinstance(ex0[ch.key], bool) else z3.BoolVal(ex0[ch.key]), ex_term(fs_, ch)), "post",
+                              "a failed compression does not remove the header of a pair published earlier under the final name (that .cbin would no longer open)")
         S.explore(body)
 
 
@@ -501,9 +506,54 @@ def b_native(B):
                 shutil.rmtree(d, ignore_errors=True)
 
 
-@bounded(PROPERTY, "native_scratch_retry", bound="real mtscomp: decompress_to_scratch with a failure injected at chunk k in {0,1,2} of 3, then retried without failure; scratch dir given / not given; compress_file over a stale / truncated compressed pair of the same shape, keeping and removing the source",
+def native_failed_recompression(keeps=(True, False), fails=(0, 2)):
+    """a complete .cbin/.ch pair is already published; a second compression of the .bin fails at chunk k: the published pair must still open and read"""
+    import unittest.mock as um
+    real = getattr(mtscomp.Writer, "_compress_chunk", None)
+    bad = []
+    if real is None:
+        return bad
+    rng = np.random.default_rng(5)
+    for keep in keeps:
+        for fail_at in fails:
+            d = tempfile.mkdtemp(prefix="c02_")
+            try:
+                files = _mk_pair(d, 2 * 1500 + 7, 385, rng, keep=("bin", "cbin"))
+                want = np.fromfile(files["bin"], dtype=np.int16).reshape(-1, 385)
+                calls = {"n": 0}
+
+                def boom(self, *a, **k):
+                    if calls["n"] == fail_at:
+                        raise IOError("injected failure")
+                    calls["n"] += 1
+                    return real(self, *a, **k)
+                sr = spikeglx.Reader(files["bin"], sort=False)
+                raised = False
+                with um.patch.object(mtscomp.Writer, "_compress_chunk", boom):
+                    try:
+                        sr.compress_file(keep_original=keep, chunk_duration=0.05)
+                    except Exception:
+                        raised = True
+                sr.close()
+                try:
+                    s2 = spikeglx.Reader(files["cbin"], sort=False)
+                    ok = raised and s2.shape == want.shape and np.array_equal(s2._raw[1490:1510, :], want[1490:1510, :])
+                    s2.close()
+                    note = "" if ok else "published pair reads differently"
+                except Exception as e:
+                    ok, note = False, "published pair no longer opens: " + repr(e)[:120]
+                if not ok:
+                    bad.append({"keep_original": keep, "failed_at_chunk": fail_at, "second_compression_raised": raised, "what": note})
+            finally:
+                shutil.rmtree(d, ignore_errors=True)
+    return bad
+
+
+@bounded(PROPERTY, "native_scratch_retry", bound="real mtscomp: decompress_to_scratch with a failure injected at chunk k in {0,1,2} of 3, then retried without failure; scratch dir given / not given; a second compress_file failing at chunk k over an already published pair; compress_file over a stale / truncated compressed pair of the same shape, keeping and removing the source",
          clause="two-step fault history: nothing left by a failed attempt is ever published under the final name")
 def b_retry(B):
+    badr = native_failed_recompression(fails=(0, 2) if B.tier == "quick" else (0, 1, 2))
+    B.case("failed_recompression_keeps_the_published_pair", not badr, detail=badr[:3], inputs={"kind": "failed_recompression"})
     import unittest.mock as um
     rng = np.random.default_rng(B.seed)
     for with_dir in (True, False):
